@@ -1,46 +1,20 @@
 package main
 
 import (
-	stdjson "encoding/json"
 	"fmt"
-	"strconv"
-	"time"
 
-	"github.com/segmentio/encoding/json"
+	"github.com/segmentio/encoding/proto"
 )
 
-type EInt int
-
-func (e EInt) MarshalJSON() ([]byte, error) { return []byte(`"e` + strconv.Itoa(int(e)) + `"`), nil }
-
-type S struct {
-	*EInt
-	Z int
-}
-type S2 struct {
-	P *EInt
-}
-
-func try(name string, f func() ([]byte, error)) {
-	defer func() {
-		if r := recover(); r != nil {
-			fmt.Println(name, "PANIC", r)
-		}
-	}()
-	b, err := f()
-	fmt.Println(name, string(b), err)
+type T struct {
+	M map[string]int32 `protobuf:"bytes,1,rep,name=m"`
+	N map[int32]bool   `protobuf:"bytes,2,rep,name=n"`
 }
 
 func main() {
-	try("std S", func() ([]byte, error) { return stdjson.Marshal(S{}) })
-	try("pkg S", func() ([]byte, error) { return json.Marshal(S{}) })
-	try("std S2", func() ([]byte, error) { return stdjson.Marshal(S2{}) })
-	try("pkg S2", func() ([]byte, error) { return json.Marshal(S2{}) })
-	var m1, m2 map[time.Time]string
-	in := []byte(`{"0000-01-01T00:00:00Z":"x"}`)
-	fmt.Println("std", stdjson.Unmarshal(in, &m1), m1)
-	fmt.Println("pkg", json.Unmarshal(in, &m2), m2)
-	var t1, t2 time.Time
-	fmt.Println("std", stdjson.Unmarshal([]byte(`"0000-01-01T00:00:00Z"`), &t1), t1)
-	fmt.Println("pkg", json.Unmarshal([]byte(`"0000-01-01T00:00:00Z"`), &t2), t2)
+	b, err := proto.Marshal(&T{M: map[string]int32{"": 0}, N: map[int32]bool{0: false, 1: false}})
+	fmt.Printf("%x %v\n", b, err)
+	var t T
+	err = proto.Unmarshal(b, &t)
+	fmt.Printf("%+v %v\n", t, err)
 }
